@@ -194,3 +194,139 @@ Proof.
   destruct (run_b_sound cf (length progs) sched _ (Beyond_init inits progs) Hr) as [H1 H2].
   constructor; [apply inits_b_sound; exact Hi|apply progs_b_sound; exact Hp|exact H1|exact H2].
 Qed.
+
+(** Every scheduled thread is enabled (hypothesis of [C01_no_fault_events]). *)
+Fixpoint enabled_b (cf : config) (s : state) (sched : list (N * N)) : bool :=
+  match sched with
+  | [] => true
+  | (t, x) :: rest => enabled s t && enabled_b cf (fst (step cf s t x)) rest
+  end.
+
+Lemma enabled_b_sound cf : forall sched s, enabled_b cf s sched = true ->
+  forall k t x, nth_error sched k = Some (t, x) -> enabled (St cf s sched k) t = true.
+Proof.
+  induction sched as [|[t x] sched IH]; intros s H [|k] t' x' Hk; try discriminate Hk;
+    cbn [enabled_b] in H; apply andb_true_iff in H as [H1 H2].
+  - injection Hk as <- <-. exact H1.
+  - rewrite St_cons. apply (IH _ H2 k t' x'). exact Hk.
+Qed.
+
+(** ** The example run *)
+(** Fallback-only strategy with debug assertions; container 0 holds the value at 4096.
+    Thread 0 (reader): [load] into handle 1, then drops the guard.
+    Thread 1 (writer): allocates a value (at 4112, the scheduler's choice) and stores it.
+    Schedule: the reader runs 7 steps — up to and including [LH2], the swap that publishes its
+    generation in the control word of its node —; the writer runs to completion (60 steps): its
+    [pay_all] finds the request ([PE1] -> [PE2]), loads a replacement, and hands it over with a
+    successful exchange at [PE7]; then the reader finishes (13 steps): its confirmation [LH5]
+    finds the replacement tag and takes the helper's value ([LH7]..[LH9]). *)
+Definition ex_cf : config := mkConfig false true.
+Definition ex_inits : list N := [4096].
+Definition ex_progs : list (list cmd) := [[CLoad 0 1; CDrop 1]; [CNew 2; CStore 0 (SHandle 2)]].
+Definition ex_sched : list (N * N) := repeat (0, 0) 7 ++ repeat (1, 4112) 60 ++ repeat (0, 0) 13.
+Definition ex_s0 : state := init_state ex_inits ex_progs.
+Definition ex_St (k : nat) : state := St ex_cf ex_s0 ex_sched k.
+Definition ex_final : state := run_state ex_cf ex_s0 ex_sched.
+
+Example runok_b_example : runok_b ex_cf ex_inits ex_progs ex_sched = true.
+Proof. vm_compute. reflexivity. Qed.
+
+Example RunOK_example : RunOK ex_cf ex_inits ex_progs ex_sched.
+Proof. apply runok_b_sound. exact runok_b_example. Qed.
+
+Example ex_length : length ex_sched = 80%nat.
+Proof. reflexivity. Qed.
+
+(** The run is the intended one: the reader published its request ... *)
+Example ex_published :
+  hd_error (t_stack (thr (ex_St 7) 0)) = Some (LH3 0 6) /\ mem (sh (ex_St 7)) (LCtrl 0) = 6 /\
+  mem (sh (ex_St 7)) (LStore 0) = 4096.
+Proof. vm_compute. auto. Qed.
+
+(** ... the writer's exchange at [PE7] succeeded (it continues at [PE8], and the reader's control
+    word now carries the replacement tag) ... *)
+Example ex_helped :
+  t_stack (thr (ex_St 49) 1) = [PE7 0 4096 0 6 4112 4 8; WSwap 4096; WDropOld; KDone None] /\
+  nth_error ex_sched 49 = Some (1, 4112) /\
+  hd_error (t_stack (thr (ex_St 50) 1)) = Some (PE8 0 4096 0 4) /\
+  mem (sh (ex_St 49)) (LCtrl 0) = 6 /\
+  mem (sh (ex_St 50)) (LCtrl 0) = N.lor 8 REPLACEMENT_TAG.
+Proof. vm_compute. repeat split; reflexivity. Qed.
+
+(** ... and the reader took the helper's value through [LH7], although the old value (4096) was
+    destroyed in between: the guard it returns is on the NEW value. *)
+Example ex_reader_helped :
+  hd_error (t_stack (thr (ex_St 71) 0)) = Some (LH7 4112 1) /\
+  heap (sh (ex_St 67)) 4096 = None /\
+  hnd (ex_St 74) 1 = HGuard 4112 None /\ mem (sh (ex_St 74)) (LCount 4112) = 2.
+Proof. vm_compute. repeat split; reflexivity. Qed.
+
+(** ** The end-to-end theorems on this run *)
+Example ex_NoFault : NoFault ex_final.
+Proof. exact (proj1 (C01_no_use_after_free _ _ _ _ RunOK_example)). Qed.
+
+Example ex_no_dead_access : forall te, In te (snd (run ex_cf ex_s0 ex_sched)) ->
+  forall a, ~ In (EvFault (FDeadInc a)) (snd te) /\ ~ In (EvFault (FDeadDec a)) (snd te).
+Proof. exact (proj2 (C01_no_use_after_free _ _ _ _ RunOK_example)). Qed.
+
+Example ex_enabled : enabled_b ex_cf ex_s0 ex_sched = true.
+Proof. vm_compute. reflexivity. Qed.
+
+Example ex_no_fault_events : forall te, In te (snd (run ex_cf ex_s0 ex_sched)) ->
+  forall f, ~ In (EvFault f) (snd te).
+Proof.
+  apply (C01_no_fault_events _ _ _ _ RunOK_example). apply enabled_b_sound. exact ex_enabled.
+Qed.
+
+Example ex_Acc : Acc ex_final.
+Proof. exact (C02_accounting _ _ _ _ RunOK_example). Qed.
+
+Example ex_Master : Master ex_final.
+Proof. exact (RunOK_Master_end _ _ _ _ RunOK_example). Qed.
+
+(** The schedule runs both threads to the end. *)
+Example ex_final_threads :
+  thr ex_final 0 = mkThread [] (mkTl None 0 4 false 0) [CLoad 0 1; CDrop 1] 2 Exited /\
+  t_stack (thr ex_final 1) = [] /\ t_status (thr ex_final 1) = Exited /\ t_cmdi (thr ex_final 1) = 2.
+Proof. vm_compute. repeat split; reflexivity. Qed.
+
+Example ex_Quiescent : Quiescent ex_final.
+Proof.
+  intros t. assert (H : t = 0 \/ t = 1 \/ N.of_nat (length ex_progs) <= t) by (cbn; lia).
+  destruct H as [->|[->|H]].
+  - vm_compute. reflexivity.
+  - vm_compute. reflexivity.
+  - unfold ex_final, ex_s0.
+    rewrite (Beyond_run ex_cf _ ex_sched _ (Beyond_init ex_inits ex_progs) t H). reflexivity.
+Qed.
+
+(** The final state: the container holds the new value with count 1, the old value is gone. *)
+Example ex_final_values :
+  mem (sh ex_final) (LStore 0) = 4112 /\ mem (sh ex_final) (LCount 4112) = 1 /\
+  heap (sh ex_final) 4112 = Some 1 /\ mem (sh ex_final) (LCount 4096) = 0 /\ heap (sh ex_final) 4096 = None /\
+  hnd ex_final 1 = HEmpty /\ hnd ex_final 2 = HEmpty.
+Proof. vm_compute. repeat split; reflexivity. Qed.
+
+(** C03 on the reader's [load]: it starts with step 0 and completes with step 73; the guard is
+    on a value that the container held in between. *)
+Example ex_load_linearizable :
+  exists v, (exists d, hnd (ex_St 74) 1 = HGuard v d) /\
+    exists k, (1 <= k <= 74)%nat /\ mem (sh (ex_St k)) (LStore 0) = v.
+Proof.
+  apply (C03_load_linearizable ex_cf ex_inits ex_progs ex_sched RunOK_example
+           0 0 (CLoad 0 1) 0 1 0%nat 73%nat 0 0 0).
+  all: try (vm_compute; reflexivity).
+  - left. reflexivity.
+  - lia.
+Qed.
+
+Print Assumptions scope_thread_sound.
+Print Assumptions scope_alloc_sound.
+Print Assumptions run_no_thread.
+Print Assumptions runok_b_sound.
+Print Assumptions RunOK_example.
+Print Assumptions ex_NoFault.
+Print Assumptions ex_no_fault_events.
+Print Assumptions ex_Acc.
+Print Assumptions ex_Quiescent.
+Print Assumptions ex_load_linearizable.
